@@ -431,8 +431,16 @@ impl Cnf {
     /// `lbl_to_pos`, which is a mapping from variable labels to their position
     /// in the ordering
     fn average_span(&self, lbl_to_pos: &[usize]) -> f64 {
+        // the empty formula has no clause to average over
+        if self.clauses.is_empty() {
+            return 0.0;
+        }
         let mut total = 0;
         for clause in self.clauses.iter() {
+            // an empty clause spans nothing
+            if clause.is_empty() {
+                continue;
+            }
             let mut min_pos = lbl_to_pos.len();
             let mut max_pos = 0;
             // find the two variables in the clause which are farthest
